@@ -522,7 +522,7 @@ Qed.
 Lemma step_ev_ok s m c s' evs : J s m -> step repaired s c = Some (s', evs) -> forallb ev_okb evs = true.
 Proof.
   intros HJ H. pose proof (j_hdr _ _ HJ) as Hh.
-  destruct c; cbn [step repaired v_share_header v_clear_handles v_log_serial] in H;
+  destruct c; cbn [step repaired v_share_header v_clear_handles v_log_serial v_alias_buf v_share_merged] in H;
     repeat match type of H with
            | context [if ?b then _ else _] => destruct b
            | context [match ?x with _ => _ end] => destruct x eqn:?
